@@ -5,6 +5,8 @@ constant copy carrying a gradient} x constant flag x gradient presence x transpo
 /repo: loaded data/dtype/shape/gradient equal the saved ones, saving alters nothing (data, gradient, creator, consumers, flags)."""
 import itertools
 import json
+
+import numpy as np
 import os
 
 from common import HarnessError, VERIF, run_impl_parallel
@@ -19,6 +21,20 @@ def run(rep, work, tier, seed, props, replay=None):
                 tasks.append({"dtype": dt, "shape": shape, "kind": kind, "via": via, "grad": grad, "constant": constant})
     for shape, via in itertools.product([[], [3], [2, 3]], ["str", "bytesio"]):
         tasks.append({"dtype": "float64", "shape": shape, "kind": "const_copy_with_grad", "via": via, "grad": True, "constant": None})
+    # archives not written by mygrad.save: load == tensor(data) then backward(grad), so the stored gradient is cast / broadcast / refused like any seed
+    for dt, shape in (("float64", [2, 3]), ("float32", [6]), ("float64", [])):
+        n = 6 if shape else 1
+        variants = [("float32" if dt == "float64" else "float64", shape, "ok"), ("float16", shape, "ok"), ("int64", shape, "ok"), (dt, [], "ok")]
+        if shape == [2, 3]:
+            variants += [(dt, [3], "ok"), (dt, [1, 3], "ok"), (dt, [2, 1], "ok"), (dt, [2], "raise"), (dt, [3, 2], "raise"), (dt, [1, 2, 3], "raise")]
+        if shape == [6]:
+            variants += [(dt, [1], "ok"), (dt, [5], "raise"), (dt, [1, 6], "raise")]
+        if shape == []:
+            variants += [(dt, [1], "raise")]
+        for gdt, gshape, expect in variants:
+            gn = int(np.prod(gshape)) if gshape else 1
+            tasks.append({"kind": "foreign", "dtype": dt, "shape": shape if shape else [], "grad_dtype": gdt, "grad_shape": gshape, "grad_vals": [float(k % 4 + 1) for k in range(gn)],
+                          "expect": expect, "via": "bytesio", "grad": True, "constant": None})
     if replay is not None and "task" in replay:
         tasks = [replay["task"]]
     os.environ["VERIF_TMP"] = work.dir
